@@ -483,8 +483,25 @@ def build_corr(cp, spec):
         if cp["base"] == "custom":
             ref = _checker_colors(cp["cseed"] + 1).astype(np.float32) / 255.0
             base = _custom_checker(ref)
-        return darsia.ColorCorrection(base=base, config=cfg)
+        return reseed_kmeans(darsia.ColorCorrection(base=base, config=cfg))
     raise AssertionError(kind)
+
+
+def reseed_kmeans(corr):
+    """Harness-side wrapping of the *instance's* correct_array: the colour correction extracts the
+    swatch colours with cv2.kmeans(KMEANS_RANDOM_CENTERS), which draws from cv2's global RNG.  Its
+    result therefore depends (at the 1e-5 level, amplified to ~2e-4 by the Powell fit) on how many
+    k-means calls preceded it - e.g. on the position of a slice in a series.  Resetting the RNG
+    before every array-level call makes each application a pure function of its input, so that
+    exact comparisons are sound."""
+    inner = corr.correct_array
+
+    def correct_array(img):
+        cv2.setRNGSeed(0)
+        return inner(img)
+
+    corr.correct_array = correct_array
+    return corr
 
 
 def _custom_checker(ref):
@@ -816,10 +833,7 @@ def check_series(case):
     for k in range(spec["nt"]):
         want = _apply(c2, ref.time_slice(k), False)
         got = r.time_slice(k)
-        # k-means inside the colour correction draws from cv2's global RNG, whose state cannot
-        # be reset between the slices of one call: float32 rounding level differences (measured
-        # 3e-6 on values in [0, 1]) are allowed there, everything else is compared exactly
-        d = _same_array(got.img, want.img, atol=1e-4 if cp["kind"] == "color" and cp["active"] else 0.0)
+        d = _same_array(got.img, want.img)
         if d:
             raise Violation(f"series-slice-data:{cp['kind']}", f"slice {k} of the corrected series vs "
                             f"correction of time_slice({k}): {d}", t)
@@ -929,15 +943,17 @@ PROP = Prop(
         "array inputs with overwrite=True: only the returned values are compared (identity is not "
         "demanded, a dtype/shape changing correction cannot work in place)",
         "expected data always come from a second, identically constructed correction object",
+        "cv2.setRNGSeed(0) before every application; the colour correction's instance is wrapped so "
+        "that this also happens before each slice of a series (k-means draws from cv2's global RNG)",
     ],
     subs=[
-        Sub("no_overwrite_leaves_input", _wrap(check_no_overwrite), gen=gen("any"), n=_n(2400, 80000), shards=_SH),
-        Sub("same_kind", _wrap(check_same_kind), gen=gen("any"), n=_n(2400, 80000), shards=_SH),
-        Sub("data_equals_correct_array", _wrap(check_data), gen=gen("single"), n=_n(2400, 80000), shards=_SH),
-        Sub("metadata_is_input_plus_update", _wrap(check_metadata), gen=gen("image"), n=_n(2400, 80000), shards=_SH),
-        Sub("overwrite_same_object", _wrap(check_overwrite), gen=gen("any"), n=_n(2400, 80000), shards=_SH),
-        Sub("series_equals_per_slice", _wrap(check_series), gen=gen("series"), n=_n(1800, 60000), shards=_SH),
-        Sub("neutral_is_identity", _wrap(check_neutral), gen=gen("neutral"), n=_n(2400, 80000), shards=_SH),
-        Sub("constructor_chain", _wrap(check_chain), gen=gen_chain, n=_n(1800, 60000), shards=_SH),
+        Sub("no_overwrite_leaves_input", _wrap(check_no_overwrite), gen=gen("any"), n=_n(2400, 60000), shards=_SH),
+        Sub("same_kind", _wrap(check_same_kind), gen=gen("any"), n=_n(2400, 60000), shards=_SH),
+        Sub("data_equals_correct_array", _wrap(check_data), gen=gen("single"), n=_n(2400, 60000), shards=_SH),
+        Sub("metadata_is_input_plus_update", _wrap(check_metadata), gen=gen("image"), n=_n(2400, 60000), shards=_SH),
+        Sub("overwrite_same_object", _wrap(check_overwrite), gen=gen("any"), n=_n(2400, 60000), shards=_SH),
+        Sub("series_equals_per_slice", _wrap(check_series), gen=gen("series"), n=_n(1800, 45000), shards=_SH),
+        Sub("neutral_is_identity", _wrap(check_neutral), gen=gen("neutral"), n=_n(2400, 60000), shards=_SH),
+        Sub("constructor_chain", _wrap(check_chain), gen=gen_chain, n=_n(1800, 45000), shards=_SH),
     ],
 )
